@@ -275,5 +275,100 @@ theorem fscmEnv_not_positive {M : Fscm.Model} {card : Name → Nat} (x : Name) (
   rw [hz] at this
   exact lt_irrefl _ this
 
+/-! ## 4. non-vacuity: a functional SCM with a confounder -/
+
+section example_fscm
+open Var
+
+/-- Z → X → Y with X ↔ Y: `u₀` is shared by X and Y (the confounder), `u₁,u₂,u₃` are private -/
+def conf3 : Fscm.Model :=
+  { order := [0, 1, 2]
+    noise := [[1/3, 2/3], [1/3, 2/3], [1/5, 4/5], [1/4, 3/4]]
+    pa := fun v => match v with | 1 => [0] | 2 => [1] | _ => []
+    lat := fun v => match v with | 0 => [1] | 1 => [0, 2] | 2 => [0, 3] | _ => []
+    f := fun _ ps us => (ps.sum + us.sum) % 2 }
+
+def conf3G : MG Name := MG.fromEdges [0, 1, 2] [(0, 1), (1, 2)] [(1, 2)]
+
+theorem conf3_wellFormed : WellFormed conf3 (fun _ => 2) := by
+  refine ⟨fun _ => by decide, fun _ _ _ => Nat.mod_lt _ (by decide), ?_, ?_⟩
+  · intro pmf hp p hpp
+    simp only [conf3, List.mem_cons, List.not_mem_nil, or_false] at hp
+    rcases hp with rfl | rfl | rfl | rfl <;>
+      simp only [List.mem_cons, List.not_mem_nil, or_false] at hpp <;>
+      rcases hpp with rfl | rfl <;> norm_num
+  · intro pmf hp
+    simp only [conf3, List.mem_cons, List.not_mem_nil, or_false] at hp
+    rcases hp with rfl | rfl | rfl | rfl <;> norm_num
+
+theorem conf3_compatible : Fscm.Compatible conf3 conf3G := by
+  refine ⟨by decide, by decide, ?_, ?_, ?_⟩
+  · intro v p hp
+    match v with
+    | 0 => simp [conf3] at hp
+    | 1 => simp [conf3] at hp; subst hp; decide
+    | 2 => simp [conf3] at hp; subst hp; decide
+    | n + 3 => simp [conf3] at hp
+  · intro l₁ v l₂ h p hp
+    match v with
+    | 0 => simp [conf3] at hp
+    | 1 =>
+      simp [conf3] at hp; subst hp
+      match l₁, h with
+      | [], h => simp [conf3] at h
+      | [a], h => simp_all [conf3]
+      | a :: b :: r, h => simp_all [conf3]
+    | 2 =>
+      simp [conf3] at hp; subst hp
+      match l₁, h with
+      | [], h => simp [conf3] at h
+      | [a], h => simp [conf3] at h
+      | [a, b], h => simp_all [conf3]
+      | a :: b :: c :: r, h => simp_all [conf3]
+    | n + 3 => simp [conf3] at hp
+  · intro v w hne ⟨j, hj1, hj2⟩
+    match v, w with
+    | 0, 0 => exact absurd rfl hne
+    | 0, 1 => simp [conf3] at hj1 hj2; omega
+    | 0, 2 => simp [conf3] at hj1 hj2; omega
+    | 0, n + 3 => simp [conf3] at hj2
+    | 1, 0 => simp [conf3] at hj1 hj2; omega
+    | 1, 1 => exact absurd rfl hne
+    | 1, 2 => left; decide
+    | 1, n + 3 => simp [conf3] at hj2
+    | 2, 0 => simp [conf3] at hj1 hj2; omega
+    | 2, 1 => right; decide
+    | 2, 2 => exact absurd rfl hne
+    | 2, n + 3 => simp [conf3] at hj2
+    | n + 3, _ => simp [conf3] at hj1
+
+/-- so all laws of probability hold in its environment -/
+example : ProbFamily (conf3.fscmEnv (fun _ => 2)) := fscm_probFamily conf3_wellFormed
+
+/-- `Σ_Z P(Y_x) · P(X | Z)`, a product of leaves living in two different worlds -/
+def exCf : Expr :=
+  .sum (.prod [.prob none [{ name := 2, ivs := [⟨1, false⟩] }] [], .prob none [plain 1] [plain 0]]) [plain 0]
+
+example : WellScoped exCf = true := by decide
+example : DenNZ (conf3.fscmEnv (fun _ => 2)) (fun _ => 0) exCf := by simp [exCf, DenNZ, DenNZList]
+
+example (e' : Expr) (h : canon [plain 0, plain 1, plain 2] exCf = .ok e') :
+    den (conf3.fscmEnv (fun _ => 2)) (fun _ => 0) e' (fun _ => 0) =
+      den (conf3.fscmEnv (fun _ => 2)) (fun _ => 0) exCf (fun _ => 0) :=
+  canon_den_fscm conf3_wellFormed (by decide) (by simp [exCf, DenNZ, DenNZList]) h (fun _ => Nat.zero_lt_two)
+
+
+/-- the environment is a genuine cross-world joint: `P(Y_{x=0} = 1, Y = 0) = 1/5`, whereas
+`P(Y_{x=0} = 1) · P(Y = 0) = 5/12 · 9/20 = 3/16` -/
+theorem conf3_crossWorld :
+    (conf3.fscmEnv (fun _ => 2)).pr none [⟨2, [(1, 0)], 1⟩, ⟨2, [], 0⟩] = 1 / 5 ∧
+    (conf3.fscmEnv (fun _ => 2)).pr none [⟨2, [(1, 0)], 1⟩] = 5 / 12 ∧
+    (conf3.fscmEnv (fun _ => 2)).pr none [⟨2, [], 0⟩] = 9 / 20 := by
+  refine ⟨?_, ?_, ?_⟩ <;>
+  · simp [Model.fscmEnv, prob, space, conf3, atomConj, normDo, holds, solve, step, forced, update, List.zipIdx]
+    norm_num
+
+end example_fscm
+
 end C10Sem
 end Y0
